@@ -137,6 +137,10 @@ type K struct {
 	aborting bool
 
 	Stats map[string]int
+	// Pairs records which scheduling sites followed each other on different
+	// tasks (a measure of the interleavings reached); nil = not recorded.
+	Pairs    map[string]struct{}
+	lastSite string
 
 	// Invariant, when set, is evaluated after every step on the kernel
 	// goroutine; a non-empty string stops the run.
@@ -153,6 +157,7 @@ func New(cfg Config) *K {
 	}
 	k := &K{cfg: cfg, tasks: map[uint64]*Task{}, Stats: map[string]int{}, digest: 1469598103934665603}
 	k.start = time.Now()
+	k.Pairs = PairSink
 	k.rootGid = gid()
 	k.Sched = rand.New(rand.NewPCG(cfg.Seed, 0x5ced))
 	k.Env = rand.New(rand.NewPCG(cfg.Seed, 0xe17))
@@ -168,6 +173,10 @@ func New(cfg Config) *K {
 	}
 	return k
 }
+
+// PairSink is the process-wide set the kernels add their site pairs to (set
+// by the worker; nil = not recorded).
+var PairSink map[string]struct{}
 
 // current is the kernel of the run in progress in this process (one at a
 // time); instrumented-library yields arrive through it.
@@ -601,7 +610,11 @@ func (k *K) perform(c cand) {
 	if !r.Lock {
 		k.progress++
 	}
+	if k.Pairs != nil && k.last != nil && k.last != r.task && len(k.Pairs) < 4096 {
+		k.Pairs[k.lastSite+" -> "+r.Site] = struct{}{}
+	}
 	k.last = r.task
+	k.lastSite = r.Site
 	k.hashInt(r.task.ID)
 	k.hash(r.Site)
 	k.hashInt(r.Obj)
